@@ -117,4 +117,32 @@ theorem stepTimedAux_fuel (tbl : TransTable) (tos : List Nat) (k : Nat) (a : Fsm
         stepTimedAux_succ_expired tbl tos 1 a i now h, stepTimedAux_succ_fresh tbl tos 0 _ _ now hn]
   · simp only [stepTimedAux, if_neg h]
 
+/-! ## a clock that moves while the call runs (`stepTimedR`: first reading `now1`, second — only after an expiry — `now2`) -/
+
+theorem stepTimedR_same (tbl : TransTable) (tos : List Nat) (a : Fsm) (i : Int) (now : Nat) :
+    stepTimedR tbl tos a i now now = stepTimed tbl tos a i now := by
+  simp only [stepTimedR, stepTimed, stepTimedAux]
+
+/-- within the timeout — judged at the reading taken on entry — one table lookup, stamped with that reading -/
+theorem stepTimedR_within (tbl : TransTable) (tos : List Nat) (a : Fsm) (i : Int) (now1 now2 : Nat)
+    (h : timeoutOf tos a.state = 0 ∨ diff64 now1 a.lastTs ≤ timeoutOf tos a.state) :
+    stepTimedR tbl tos a i now1 now2 = { state := (lookup tbl a.state i).1, lastTs := now1 } := by
+  have hne : ¬(timeoutOf tos a.state ≠ 0 ∧ diff64 now1 a.lastTs > timeoutOf tos a.state) := by
+    intro ⟨h1, h2⟩; rcases h with h | h
+    · exact h1 h
+    · omega
+  simp only [stepTimedR, if_neg hne]
+
+theorem stepTimedR_expired (tbl : TransTable) (tos : List Nat) (a : Fsm) (i : Int) (now1 now2 : Nat)
+    (h : timeoutOf tos a.state ≠ 0 ∧ diff64 now1 a.lastTs > timeoutOf tos a.state) :
+    stepTimedR tbl tos a i now1 now2 =
+      stepTimedAux tbl tos 1 { state := (lookup tbl a.state (-1)).1, lastTs := now1 } (-1) now2 := by
+  simp only [stepTimedR, if_pos h]
+
+/-- the second level acts on -1 whatever the second reading is -/
+theorem stepTimedAux_one_state (tbl : TransTable) (tos : List Nat) (a : Fsm) (now : Nat) :
+    (stepTimedAux tbl tos 1 a (-1) now).state = (lookup tbl a.state (-1)).1 := by
+  simp only [stepTimedAux]
+  split <;> simp
+
 end LLTD
